@@ -234,40 +234,45 @@ def subsetOf (a b : List String) : Bool := a.all b.contains
 def unionInto (a b : List String) : List String :=
   b.foldl (fun acc x => if acc.contains x then acc else acc ++ [x]) a
 
+/-- the queue / split-tracking part of visiting a transition target -/
+def enqueueNext (w : WfSpec) (splits : List String) (st : CompState) (nextName : String) : CompState :=
+  if !st.g.hasTask nextName || !w.inCycle nextName then
+    match st.track.find? (·.1 == nextName) with
+    | some (_, existing) =>
+      if existing.isEmpty then
+        { st with queue := st.queue ++ [(nextName, splits)],
+                  track := st.track.map fun p => if p.1 == nextName then (p.1, unionInto [] splits) else p }
+      else if !subsetOf splits existing then
+        { st with queue := st.queue ++ [(nextName, splits)],
+                  track := st.track.map fun p => if p.1 == nextName then (p.1, unionInto existing splits) else p }
+      else st
+    | none =>
+      { st with queue := st.queue ++ [(nextName, splits)],
+                track := st.track ++ [(nextName, unionInto [] splits)] }
+  else st
+
+/-- use the existing transition if present, otherwise add it with the next free key -/
+def addEdge (g : Graph) (taskName nextName : String) (cond : Option Expr) (idx : Nat) : Graph :=
+  if g.edges.any fun e =>
+      e.src == taskName && e.dst == nextName && criteriaEq e.criteria cond && e.ref == idx then g
+  else
+    let g := (g.addTask taskName).addTask nextName
+    let key := (g.edges.filter fun e => e.src == taskName && e.dst == nextName).length
+    { g with edges := g.edges ++
+        [{ src := taskName, dst := nextName, key := key, criteria := cond, ref := idx }] }
+
 def composeEdge (w : WfSpec) (taskName : String) (splits : List String)
     (st : CompState) (nt : String × Option Expr × Nat) : CompState :=
-  let (nextName, cond, idx) := nt
-  if nextName == "retry" then
-    let r : GRetry := { when_ := some (cond.getD .completed), count := some (.lit (.int 3)), delay := none }
+  if nt.1 == "retry" then
+    let r : GRetry := { when_ := some (nt.2.1.getD .completed), count := some (.lit (.int 3)), delay := none }
     { st with g := st.g.updateNode taskName fun nd => { nd with retry := some r } }
   else
-    let st :=
-      if !st.g.hasTask nextName || !w.inCycle nextName then
-        match st.track.find? (·.1 == nextName) with
-        | some (_, existing) =>
-          if existing.isEmpty then
-            { st with queue := st.queue ++ [(nextName, splits)],
-                      track := st.track.map fun p => if p.1 == nextName then (p.1, unionInto [] splits) else p }
-          else if !subsetOf splits existing then
-            { st with queue := st.queue ++ [(nextName, splits)],
-                      track := st.track.map fun p => if p.1 == nextName then (p.1, unionInto existing splits) else p }
-          else st
-        | none =>
-          { st with queue := st.queue ++ [(nextName, splits)],
-                    track := st.track ++ [(nextName, unionInto [] splits)] }
-      else st
-    let g := st.g
-    let existing := g.edges.any fun e =>
-      e.src == taskName && e.dst == nextName && criteriaEq e.criteria cond && e.ref == idx
-    if existing then st
-    else
-      let g := (g.addTask taskName).addTask nextName
-      let key := (g.edges.filter fun e => e.src == taskName && e.dst == nextName).length
-      { st with g := { g with edges := g.edges ++
-          [{ src := taskName, dst := nextName, key := key, criteria := cond, ref := idx }] } }
+    let st := enqueueNext w splits st nt.1
+    { st with g := addEdge st.g taskName nt.1 nt.2.1 nt.2.2 }
 
-def composeStep (w : WfSpec) (st : CompState) (taskName : String) (splits : List String) : CompState :=
-  let g := st.g.addTask taskName
+/-- the node-level part of visiting a task: add the node, its barrier, split list and retry policy -/
+def stepNode (w : WfSpec) (g : Graph) (taskName : String) (splits : List String) : Graph × List String :=
+  let g := g.addTask taskName
   let g := match w.getTask? taskName with
     | some t => match t.join with
       | some b => g.updateNode taskName fun nd => { nd with barrier := some b }
@@ -281,7 +286,11 @@ def composeStep (w : WfSpec) (st : CompState) (taskName : String) (splits : List
           { nd with retry := some { when_ := r.when_, count := some r.count, delay := r.delay } }
       | none => g
     | none => g
-  (w.nextTasks taskName).foldl (composeEdge w taskName splits) { st with g := g }
+  (g, splits)
+
+def composeStep (w : WfSpec) (st : CompState) (taskName : String) (splits : List String) : CompState :=
+  (w.nextTasks taskName).foldl (composeEdge w taskName (stepNode w st.g taskName splits).2)
+    { st with g := (stepNode w st.g taskName splits).1 }
 
 def composeLoop (w : WfSpec) : Nat → CompState → CompState
   | 0, st => st
